@@ -19,27 +19,28 @@ def gen_programs(run, n, max_stmts, max_depth, gate_subword):
     return progs, feats
 
 def compile_run_all(progs, work, target="native", prefix="p"):
-    """Compile every program in-process (hook batch), then run each executable. Returns list of dict."""
-    reqs = []
-    for i, p in enumerate(progs):
+    """Compile every program with the real CLI (one process per program: the vendored QBE keeps global state between runs,
+    so code generation is never driven in-process), then run each executable. Returns list of dict."""
+    def one(i):
+        p = progs[i]
         d = work.sub("%s%d" % (prefix, i))
         f = os.path.join(d, "main.fer")
         open(f, "w").write(core.to_ferret(p))
         out = os.path.join(d, "prog" + (".wasm" if target == "wasm" else ""))
-        reqs.append(dict(id=i, file=f, mode=target, out=out))
-    res = common.batch_compile(reqs)
-    def runone(i):
-        r = res[i]
-        out = reqs[i]["out"]
-        o = dict(accepted=r["ok"], panic=r["panic"], diag=r["out"], exe=os.path.exists(out))
-        if r["ok"] and o["exe"]:
+        args = (["-target", "wasm"] if target == "wasm" else []) + ["-o", out, f]
+        rc, so, se = common.ferret(args, cwd=d, timeout=90)
+        text = so + se
+        crashed = rc not in (0, 1) or "goroutine " in text or "panic:" in text or "Assertion" in text
+        o = dict(accepted=(rc == 0), panic=(("exit status %s: " % rc) + text[-1800:]) if crashed else "", diag=text[-3000:],
+                 exe=os.path.exists(out))
+        if rc == 0 and o["exe"]:
             if target == "native":
-                rc, so, se = common.run_exe(out, timeout=20)
+                r, xo, xe = common.run_exe(out, timeout=20)
             else:
-                rc, so, se = run_wasm(out)
-            o.update(rc=rc, out=so, err=se)
+                r, xo, xe = run_wasm(out)
+            o.update(rc=r, out=xo, err=xe)
         return o
-    return common.pmap(runone, range(len(progs)), workers=8)
+    return common.pmap(one, range(len(progs)), workers=6)
 
 def run_wasm(path, timeout=20):
     import subprocess
